@@ -21,46 +21,43 @@ Proof.
   cbn [lift_dec lookup N.eqb Pos.eqb]. reflexivity.
 Qed.
 
-Definition of_reasm (r : reasm) : res errclass (list item) :=
-  match r with
-  | RDone _ items => Ok items
-  | RFail _ _ => Err EParse
-  | RCrash => Crash
-  | RTooMany => Crash
-  end.
-
-(* _pairing_char_write over char_write = C15's reassembly loop over the unwrapped payloads *)
-Lemma pcw_reasm : forall max xs ps buf acks,
-    Forall2 (fun x p => char_write_value x = Ok p) xs ps ->
-    pairing_char_write max xs buf = of_reasm (reassemble max ps buf acks).
+(* a payload that is exactly one fragment item has no siblings *)
+Lemma fragment_payload k p :
+  (k = 12%N \/ k = 13%N) ->
+  tlv_decode (frags 255 (S (length p)) k p) = Ok [(k, p)] /\ non_fragment [(k, p)] = [].
 Proof.
-  induction max as [|m IH]; intros xs ps buf acks HF; [reflexivity|].
-  destruct HF as [|x p xs' ps' Hx HF']; [reflexivity|].
-  cbn [pairing_char_write reassemble]. rewrite Hx.
-  fold (tlv_decode p).
-  destruct (decode_cases p) as [[items Hd]|Hd]; rewrite Hd; cbn [lift_dec of_reasm]; [|reflexivity].
-  destruct (lookup 13 items) as [last|].
-  - fold (tlv_decode (buf ++ last)).
-    destruct (decode_cases (buf ++ last)) as [[r Hr]|Hr]; rewrite Hr; reflexivity.
-  - destruct (lookup 12 items) as [part|]; [|reflexivity].
-    apply IH. exact HF'.
+  intros Hk. split.
+  - pose proof (decode_reply 255 F255 k p) as D. unfold reply_of in D. unfold tlv_decode.
+    destruct Hk as [-> | ->]; apply D; try reflexivity; discriminate.
+  - destruct Hk as [-> | ->]; reflexivity.
 Qed.
 
-Lemma forall2_wrap ps : Forall2 (fun x p => char_write_value x = Ok p) (map wrap ps) ps.
-Proof. induction ps as [|p r IH]; constructor; [apply char_write_wrap|exact IH]. Qed.
+(* any split of a TLV blob into FragmentData pieces and a FragmentLast piece is handed over as the blob
+   (after whatever siblings were collected before) *)
+Lemma pcw_script : forall pieces last max buf sib,
+    length pieces < max ->
+    pairing_char_write max (ble_script pieces last) buf sib
+    = finish_exchange sib (buf ++ concat pieces ++ last).
+Proof.
+  induction pieces as [|p ps IH]; intros last max buf sib Hmax.
+  - destruct max as [|m]; [cbn in Hmax; lia|].
+    unfold ble_script. cbn [map app pairing_char_write]. rewrite char_write_wrap.
+    destruct (fragment_payload 13 last (or_intror eq_refl)) as [D N]. rewrite D. cbn [lift_dec].
+    rewrite N, app_nil_r. cbn [lookup N.eqb Pos.eqb concat app]. reflexivity.
+  - destruct max as [|m]; [cbn in Hmax; lia|].
+    unfold ble_script. cbn [map app pairing_char_write]. rewrite char_write_wrap.
+    destruct (fragment_payload 12 p (or_introl eq_refl)) as [D N]. rewrite D. cbn [lift_dec].
+    rewrite N, app_nil_r. cbn [lookup N.eqb Pos.eqb].
+    fold (ble_script ps last). rewrite IH by (cbn [length] in Hmax; lia).
+    cbn [concat]. now rewrite <- !app_assoc.
+Qed.
 
-(* any split of a TLV blob into FragmentData pieces and a FragmentLast piece is handed over as the blob *)
 Lemma ble_script_exchange pieces last :
   length pieces < 50 ->
   ble_exchange (ble_script pieces last) = lift_dec (tlv_decode (concat pieces ++ last)).
 Proof.
-  intros H. unfold ble_exchange, ble_script.
-  rewrite (pcw_reasm 50 _ _ [] 0 (forall2_wrap _)).
-  transitivity (of_reasm (reassemble 50 (map (reply_of 255 12) pieces ++ [reply_of 255 13 last]) [] 0));
-    [reflexivity|].
-  rewrite (reassemble_split 255 F255 F255b pieces last 50 [] 0 H). cbn [app].
-  fold (tlv_decode (concat pieces ++ last)).
-  destruct (decode_cases (concat pieces ++ last)) as [[r Hr]|Hr]; rewrite Hr; reflexivity.
+  intros H. unfold ble_exchange. rewrite pcw_script by exact H. unfold finish_exchange. cbn [app].
+  destruct (lift_dec (tlv_decode (concat pieces ++ last))); reflexivity.
 Qed.
 
 Lemma ble_script_items d blob pieces last :
@@ -95,12 +92,27 @@ Proof.
 Qed.
 
 (* the unfragmented reply: the dict of the payload itself *)
+Lemma non_fragment_id d : lookup 13 d = None -> lookup 12 d = None -> non_fragment d = d.
+Proof.
+  intros H13 H12. unfold non_fragment.
+  assert (A : forall kv, In kv d -> negb (is_fragment_type (fst kv)) = true).
+  { intros [k v] Hin. cbn [fst]. unfold is_fragment_type.
+    destruct (N.eqb_spec k 12) as [->|]; [exfalso; exact (lookup_none_not_in _ _ H12 _ Hin)|].
+    destruct (N.eqb_spec k 13) as [->|]; [exfalso; exact (lookup_none_not_in _ _ H13 _ Hin)|]. reflexivity. }
+  clear H13 H12. induction d as [|kv r IH]; [reflexivity|].
+  cbn [filter]. rewrite (A kv (or_introl eq_refl)). f_equal. apply IH. intros x Hx. apply A. now right.
+Qed.
+
+Lemma finish_empty sib : finish_exchange sib [] = Ok sib.
+Proof. unfold finish_exchange, tlv_decode, decode, decode_exp. cbn. now rewrite app_nil_r. Qed.
+
 Theorem ble_plain_step s o d payload :
   tlv_decode payload = Ok d -> lookup 13 d = None -> lookup 12 d = None ->
   step_ble s o [wrap payload] = step_items s o d.
 Proof.
   intros Hd H13 H12. unfold step_ble, ble_exchange. cbn [pairing_char_write].
-  rewrite char_write_wrap, Hd. cbn [lift_dec]. now rewrite H13, H12.
+  rewrite char_write_wrap, Hd. cbn [lift_dec]. rewrite H13, H12, (non_fragment_id d H13 H12).
+  cbn [app]. now rewrite finish_empty.
 Qed.
 
 (* ANY script of exchanges (any statuses, any bodies, any fragmentation): success only on a clean dict *)
@@ -278,23 +290,26 @@ Qed.
 Lemma lift_dec_no_fuel bs : lift_dec (tlv_decode bs) <> OutOfFuel.
 Proof. destruct (decode_cases bs) as [[r H]|H]; rewrite H; discriminate. Qed.
 
-Lemma pcw_no_fuel : forall max xs buf, pairing_char_write max xs buf <> OutOfFuel.
+Lemma finish_no_fuel sib buf : finish_exchange sib buf <> OutOfFuel.
+Proof. unfold finish_exchange. destruct (decode_cases buf) as [[r H]|H]; rewrite H; discriminate. Qed.
+
+Lemma pcw_no_fuel : forall max xs buf sib, pairing_char_write max xs buf sib <> OutOfFuel.
 Proof.
-  induction max as [|m IH]; intros xs buf; [discriminate|].
+  induction max as [|m IH]; intros xs buf sib; [discriminate|].
   cbn [pairing_char_write]. destruct xs as [|[st body] rest]; [discriminate|].
   unfold char_write_value.
   destruct (negb (N.leb st 6)); [discriminate|]. destruct (negb (N.eqb st 0)); [discriminate|].
   destruct (decode_cases body) as [[outer H]|H]; rewrite H; cbn [lift_dec]; [|discriminate].
   destruct (lookup 1 outer) as [data|]; [|discriminate].
   destruct (decode_cases data) as [[items Hd]|Hd]; rewrite Hd; cbn [lift_dec]; [|discriminate].
-  destruct (lookup 13 items); [apply lift_dec_no_fuel|].
-  destruct (lookup 12 items); [apply IH|discriminate].
+  destruct (lookup 13 items); [apply finish_no_fuel|].
+  destruct (lookup 12 items); [apply IH|apply finish_no_fuel].
 Qed.
 
 Theorem step_ble_no_fuel s o xs : step_ble s o xs <> OutOfFuel.
 Proof.
   unfold step_ble, ble_exchange.
-  destruct (pairing_char_write 50 xs []) eqn:E; try discriminate.
+  destruct (pairing_char_write 50 xs [] []) eqn:E; try discriminate.
   - apply step_items_no_fuel.
   - exfalso. revert E. apply pcw_no_fuel.
 Qed.
@@ -324,4 +339,61 @@ Proof.
   rewrite nth_error_map, Hc in Hh. cbn [option_map fst snd] in Hh. injection Hh as Hh.
   destruct (mgmt_retry_done _ _ _ Hh) as [pre [x [post [E [F [_ M]]]]]].
   exists pre, x, post. split; [exact E|]. split; [exact F|]. now apply mgmt_ble_done_clean.
+Qed.
+
+(* ---------- nothing the accessory sent next to a fragment item is lost (the repaired loop) ---------- *)
+Lemma finish_shape sib buf d : finish_exchange sib buf = Ok d -> exists blob, d = sib ++ blob.
+Proof.
+  unfold finish_exchange. destruct (lift_dec (tlv_decode buf)) as [r|e| |]; try discriminate.
+  intros H. injection H as <-. eexists; reflexivity.
+Qed.
+
+Lemma pcw_shape : forall max xs buf sib d,
+    pairing_char_write max xs buf sib = Ok d -> exists blob, d = sib ++ ble_siblings max xs ++ blob.
+Proof.
+  induction max as [|m IH]; intros xs buf sib d H; [discriminate|].
+  cbn [pairing_char_write ble_siblings] in *. destruct xs as [|x rest]; [discriminate|].
+  destruct (char_write_value x) as [data|e| |]; try discriminate.
+  destruct (lift_dec (tlv_decode data)) as [items|e| |]; try discriminate.
+  destruct (lookup 13 items).
+  - destruct (finish_shape _ _ _ H) as [blob ->]. exists blob. now rewrite app_nil_r, <- app_assoc.
+  - destruct (lookup 12 items).
+    + destruct (IH _ _ _ _ H) as [blob ->]. exists blob. now rewrite <- !app_assoc.
+    + destruct (finish_shape _ _ _ H) as [blob ->]. exists blob. now rewrite app_nil_r, <- app_assoc.
+Qed.
+
+Theorem ble_exchange_shape xs d :
+  ble_exchange xs = Ok d -> exists blob, d = ble_siblings 50 xs ++ blob.
+Proof. intros H. destruct (pcw_shape 50 xs [] [] d H) as [blob ->]. now exists blob. Qed.
+
+Lemma has_error_app_l a b : has_error a -> has_error (a ++ b).
+Proof. intros [c H]. exists c. apply in_or_app. now left. Qed.
+
+(* ANY exchange script: an Error item next to a fragment item in ANY consumed payload fails the step *)
+Theorem ble_sibling_error_never_ok s o xs p :
+  has_error (ble_siblings 50 xs) -> step_ble s o xs <> Ok p.
+Proof.
+  intros He H. destruct (ble_success_clean s o xs p H) as [d [Hx Hc]].
+  destruct (ble_exchange_shape xs d Hx) as [blob ->].
+  apply Hc. left. now apply has_error_app_l.
+Qed.
+
+Lemma lookup_app_none k a b : lookup k b = None -> lookup k (a ++ b) = lookup k a.
+Proof.
+  intros Hb. induction a as [|[k' v'] r IH]; [exact Hb|].
+  cbn [app lookup]. now rewrite IH.
+Qed.
+
+(* ... and so does a wrong State next to a fragment item unless the reassembled reply brings its own State *)
+Theorem ble_sibling_state_never_ok s o xs p d :
+  ble_exchange xs = Ok d ->
+  (forall blob, d = ble_siblings 50 xs ++ blob -> lookup tState blob = None) ->
+  wrong_state (ble_siblings 50 xs) (expected_state s) -> step_ble s o xs <> Ok p.
+Proof.
+  intros Hx Hb [st [Hs Hne]] H.
+  destruct (ble_success_clean s o xs p H) as [d' [Hx' Hc]].
+  rewrite Hx in Hx'. injection Hx' as <-.
+  destruct (ble_exchange_shape xs d Hx) as [blob E].
+  apply Hc. right. exists st. split; [|exact Hne].
+  subst d. rewrite lookup_app_none; [exact Hs|]. now apply Hb.
 Qed.
